@@ -11,6 +11,11 @@ NA = {
 }
 
 CHECKS = {
+    'C13': dict(
+        category='other', design_ref='DESIGN.md §5 C13',
+        technique='interval + NaN-flag abstract interpretation over mandatory branch edges for float->int casts; API/table rules for literal visitors and conversion built-ins',
+        text='Decides: every float->integer cast in the built-ins is dominated by guards that exclude NaN and establish the half-open range of the target; int<->uint conversion uses propagated try_into; literal visitors take the value from str::parse/from_str_radix(16) of the right type with the error reported, finite doubles only, no casts/defaults; conversion built-ins pair Display/FromStr of matching types. Round-trips are delegated to std and not decided.',
+        note='IEEE/`as` semantics and std parse/Display trusted'),
     'C09': dict(
         category='other', design_ref='DESIGN.md §5 C09',
         technique='MIR table/decision-tree rules + cast rule with interval/NaN abstract interpretation over dominating branch edges',
